@@ -66,6 +66,21 @@ def run(ctx):
            "migrate_actors(&self.ops.actors)? dominates %d mutation sites" % len(muts) if okp and exits else "the patch log is no longer validated before the queue / actor table are touched (BatchApply::apply can then fail half way)")
     callers = {norm_fn(x).split("::{closure")[0] for c, xs in __import__("amverif.callgraph", fromlist=["get"]).get(f).inn.items() if norm_fn(c) == "automerge::op_set2::change::batch::BatchApply::apply" for x in xs}
     ctx.ob("R4-prevalidate", "BatchApply::apply|single caller", callers == {norm_fn(ap)}, "", "callers %s" % sorted(callers))
+    # ---- the known finding (a rejected duplicate of an *applied* (actor, seq) prunes the queue before the error) is keyed by its call
+    # site; its extent is pinned here so that a wider trigger is a new report: the prune runs only on the true edge of
+    # Automerge::has_actor_seq(c) (the duplicate is in the applied history), never for a duplicate that is merely queued
+    ctx.rule("R4-prune-guard", "edge dominance: in apply_changes_batch_log_patches the queue prune before a DuplicateSeqNumber error is dominated by the true edge of Automerge::has_actor_seq alone")
+    prunes = [(bi, t) for bi, t in ab.calls() if callee(t) == "automerge::change_queue::ChangeQueue::remove_actor_branch_from"]
+    for k, (bi, t) in util.ordinal_keys(prunes, lambda it: "apply_changes_batch_log_patches|remove_actor_branch_from"):
+        edges = []
+        for sb, sw in ab.switches():
+            src = ab.bool_operand_source(sw["op"])
+            if src and src["kind"] == "call" and norm_fn(src["callee"]) == "automerge::automerge::Automerge::has_actor_seq":
+                zero = [tb for v, tb in sw["targets"] if v == "0"]
+                edges.append((sb, zero[0]) if src["negated"] and zero else (sb, sw["otherwise"]))
+        ok = bool(edges) and ab.edges_dominate(edges, bi)
+        ctx.ob("R4-prune-guard", k, ok, t["sp"], "only for a duplicate of an applied (actor, seq)" if ok else
+               "the queue is pruned on a path where the rejected change does not duplicate an applied (actor, seq): a failed apply_changes now drops held changes in more cases than the known finding covers")
     # ---- transaction layer (same rule instances as C03)
     tf = C03.scope_fns(f)
     TE = eam.Eam(f, tf, C03.PRIM, C03.pending_push)
